@@ -228,9 +228,15 @@ def run(spec, out):
     # ---- solver systems (C02's generator): outcome of solve_axes / solve_shapes / matches per system; these reach the symbolic solver,
     # whose result must not depend on set iteration order or object addresses
     import signal
-    from .c02 import gen_system, CaseTimeout, _alarm
+    from .c02 import gen_system, CaseTimeout
     from ..gen.expr import pr, expand, xleaves, xshape, walk, Num
-    signal.signal(signal.SIGALRM, _alarm)
+    fired = [False]
+
+    def on_alarm(signum, frame):
+        fired[0] = True  # einx.matches has a bare 'except:' that swallows the watchdog's exception: the flag still tells
+        raise CaseTimeout()
+
+    signal.signal(signal.SIGALRM, on_alarm)
     srng = random.Random(spec["corpus_seed"] * 31 + 5)
     for k in range(spec.get("nsys", 0)):
         exprs, truth, ell, sugared = gen_system(srng)
@@ -265,9 +271,13 @@ def run(spec, out):
         out.evaluation()
         out.count("solver_systems")
         for api in ("solve_axes", "solve_shapes", "matches"):
+            fired[0] = False
             signal.alarm(30)
             try:
                 r = getattr(einx, api)(desc, *tensors, **kwargs)
+                signal.alarm(0)
+                if fired[0]:
+                    raise CaseTimeout()
                 if isinstance(r, dict):
                     r = sorted((kk, np.asarray(vv).tolist()) for kk, vv in r.items())
                 res.append("R:" + repr(r)[:200])
